@@ -697,3 +697,102 @@ def run_differential(A, B, domains, pairs, mode="value", compare_entities=True, 
         res["status"] = "pass"
         res["outcome"] = "pass"
     return res
+
+
+def run_product_bfs(A, B, inputs, domains, outputs, entities=None, cap=3000):
+    """Lock-step BFS over the product of two circuits (two builds of one source): after every
+    event both are settled and their named outputs / entity conditions must be equal."""
+    try:
+        ca, ia, sa_ = compile_with_inputs(A["stmts"], inputs, A["opts"])
+        cb, ib, sb_ = compile_with_inputs(B["stmts"], inputs, B["opts"])
+    except harness.Rejected as ex:
+        return {"status": "rejected", "detail": str(ex)[:300], "outcome": "rejected"}
+    if ia.problems or ib.problems or sa_ or sb_:
+        return {"status": "inconclusive", "outcome": "specialised"}
+    va = {o: observe.output_view(ca, o) for o in outputs}
+    vb = {o: observe.output_view(cb, o) for o in outputs}
+    ea, eb = user_entities(ca.bp), user_entities(cb.bp)
+    bad = []
+    if set(ea) != set(eb):
+        bad.append(([], "entities", (sorted(set(ea) - set(eb)), sorted(set(eb) - set(ea)))))
+    common = sorted(set(ea) & set(eb))
+    ha, hb = 2 * len(ca.combs) + 12, 2 * len(cb.combs) + 12
+    val0 = {i: domains[i][0] for i in inputs}
+
+    def obs(c, st, views, emap):
+        o = {n: own_value(c, st, v) for n, v in views.items()}
+        for k in common:
+            o[str(k)] = c.entity_condition(st, emap[k])[0]
+        return o
+    ia.set(val0)
+    ib.set(val0)
+    try:
+        sa, ka = ca.settle(ca.initial_state(), ha)
+        sb, kb = cb.settle(cb.initial_state(), hb)
+    except Unmodelled as ex:
+        return {"status": "inconclusive", "outcome": "unmodelled", "detail": str(ex)}
+    if ka is None or kb is None:
+        bad.append(([], "unsettled-at-power-on", (ka, kb)))
+    elif obs(ca, sa, va, ea) != obs(cb, sb, vb, eb):
+        bad.append(([], "power-on", (obs(ca, sa, va, ea), obs(cb, sb, vb, eb))))
+    start = (canon_state(sa), canon_state(sb), tuple(sorted(val0.items())))
+    seen = {start: None}
+    queue = collections.deque([start])
+    n_trans = 0
+    outcomes = set()
+    capped = False
+    while queue:
+        node = queue.popleft()
+        csa, csb, valt = node
+        val = dict(valt)
+        for x in inputs:
+            for v in domains[x]:
+                if val[x] == v:
+                    continue
+                nv = dict(val)
+                nv[x] = v
+                ia.set(nv)
+                ib.set(nv)
+                try:
+                    sa, ka = ca.settle(uncanon_state(csa), ha)
+                    sb, kb = cb.settle(uncanon_state(csb), hb)
+                except Unmodelled as ex:
+                    return {"status": "inconclusive", "outcome": "unmodelled", "detail": str(ex)}
+                n_trans += 1
+
+                def history():
+                    h = [(x, v)]
+                    p = node
+                    while seen[p] is not None:
+                        h.append(seen[p][1])
+                        p = seen[p][0]
+                    return list(reversed(h))
+                if ka is None or kb is None:
+                    if (ka is None) != (kb is None) and len(bad) < 30:
+                        bad.append((history(), "unsettled", (ka, kb)))
+                    continue
+                oa, ob = obs(ca, sa, va, ea), obs(cb, sb, vb, eb)
+                outcomes.add(json.dumps(oa, sort_keys=True, default=str))
+                if oa != ob and len(bad) < 30:
+                    bad.append((history(), "outputs-differ", (oa, ob)))
+                nxt = (canon_state(sa), canon_state(sb), tuple(sorted(nv.items())))
+                if nxt not in seen:
+                    if len(seen) >= cap:
+                        capped = True
+                        continue
+                    seen[nxt] = (node, (x, v))
+                    queue.append(nxt)
+    res = {"evaluations": n_trans, "states": len(seen), "transitions": n_trans, "traces": n_trans,
+           "compiles": 4, "capped": capped, "nontrivial": len(outcomes) > 1,
+           "sample": {"srcA": lang.show_prog(A["stmts"])[:400], "states": len(seen), "transitions": n_trans}}
+    if bad:
+        bad.sort(key=lambda b: len(b[0]))
+        res["status"] = "fail"
+        res["digest"] = sha([(h, k, str(i)) for h, k, i in bad[:20]])
+        res["detail"] = {"srcA": lang.show_prog(A["stmts"]), "optsA": A["opts"], "optsB": B["opts"],
+                         "shortest_history": bad[0][0], "kind": bad[0][1], "A_vs_B": str(bad[0][2])[:600]}
+        res["outcome"] = "fail"
+    else:
+        res["status"] = "pass"
+        res["outcome"] = "pass"
+    return res
